@@ -168,7 +168,7 @@ func init() {
 		Assumptions: []string{"observation through the afero API (Open+Readdir walk, Stat, full reads, Readlink)", "SQLite's own durability is trusted; the index file is copied at call boundaries"},
 		Gen: func(r *rand.Rand, tier string, relax Relax) *Case {
 			c := &Case{Cfg: GenConfig(r, 0.5), P: map[string]int64{}, S: map[string]string{}}
-			ops, u := GenHistory(r, GenOpts{MaxOps: 14, Symlinks: r.Float64() < 0.3, Handles: r.Float64() < 0.4, Sleeps: true, RS: c.Cfg.RecordSize, NoSymlinkRename: relax["symlink-rename"]})
+			ops, u := GenHistory(r, GenOpts{MaxOps: 14, Symlinks: r.Float64() < 0.3, Handles: r.Float64() < 0.4, Interleave: true, Sleeps: true, RS: c.Cfg.RecordSize, NoSymlinkRename: relax["symlink-rename"]})
 			c.Ops = addRestarts(r, ops, 0.08)
 			c.S["style"] = u.Style
 			c.P["every"] = 1
@@ -306,7 +306,7 @@ func init() {
 			if r.Float64() < 0.2 {
 				c.Cfg = GenConfig(r, 0.3)
 			}
-			o := GenOpts{MaxOps: 16, Handles: r.Float64() < 0.3, RS: c.Cfg.RecordSize, ValidBias: 0.75}
+			o := GenOpts{MaxOps: 16, Handles: r.Float64() < 0.4, Interleave: true, RS: c.Cfg.RecordSize, ValidBias: 0.75}
 			ops, u := GenHistory(r, o)
 			if r.Float64() < 0.25 {
 				// a directory with many children
